@@ -410,7 +410,7 @@ class Pipeline:
         self.per_class, self.max_confirm = per_class, max_confirm
 
     def execute(self, vh, wd, scenarios, seed, name):
-        return execute(vh, self.cmd, wd, scenarios, seed, name, extra=self.extra, env=self.env)
+        return execute(vh, self.cmd, wd, scenarios, seed, name, extra=self.extra, env=self.env, timeout=getattr(self, "timeout", 1800))
 
     def judge(self, wd, tp):
         return monitor(wd, self.mon[0], self.mon[1], tp, heap=self.heap, jvm=getattr(self, "jvm", ()))
